@@ -24,9 +24,9 @@ Print Assumptions C08_tls.
 
 (* the two folds underneath: records of a prefix of the buffered packets are handled first and what they export stays;
    the builder only appends *)
-Theorem C08_session_fold : forall C tbl parts keylog meta sip sport s ps1 ps2 s2,
-  get_tls_records C tbl parts keylog meta sip sport s (ps1 ++ ps2) = Ok s2 ->
-  exists s1, get_tls_records C tbl parts keylog meta sip sport s ps1 = Ok s1 /\ prefix (ts_traffic (rs_core s1)) (ts_traffic (rs_core s2)).
+Theorem C08_session_fold : forall C tbl parts keylog sip sport s ps1 ps2 s2,
+  get_tls_records C tbl parts keylog sip sport s (ps1 ++ ps2) = Ok s2 ->
+  exists s1, get_tls_records C tbl parts keylog sip sport s ps1 = Ok s1 /\ prefix (rs_traffic s1) (rs_traffic s2).
 Proof. exact session_prefix. Qed.
 Print Assumptions C08_session_fold.
 
